@@ -198,7 +198,12 @@ func (s *simplifier) unquoteParams(x TestExpr) TestExpr {
 	if dq == nil || len(dq.Parts) != 1 {
 		return x
 	}
-	if _, ok := dq.Parts[0].(*ParamExp); !ok {
+	pe, ok := dq.Parts[0].(*ParamExp)
+	if !ok {
+		return x
+	}
+	if pe.Exp != nil || pe.Repl != nil {
+		// The word of "${a:-'x'}" or "${a:-~}" is expanded differently without the quotes.
 		return x
 	}
 	s.modified = true
